@@ -8,6 +8,8 @@ CONSTANTS
   Secondaries = {"none"}
   WithDelete = FALSE
   WithSame = FALSE
+  WithBad = TRUE
+  NOther = 0
   NW = 4
   Emit = FALSE
 INIT TraceInit
